@@ -5,6 +5,11 @@ from .flow import flow, deep_strip, strip, show, field_path
 ATOMIC_RE = re.compile(r"^core::sync::atomic::Atomic::<(.*)>::(load|store|swap|compare_exchange|compare_exchange_weak|compare_and_swap|"
                        r"fetch_add|fetch_sub|fetch_and|fetch_nand|fetch_or|fetch_xor|fetch_update|fetch_max|fetch_min|fetch_not|"
                        r"get_mut|into_inner|as_ptr|fetch_ptr_add|fetch_byte_add)$")
+# the free functions the methods bottom out in (visible when a std RMW helper such as fetch_update/try_update is opened up by inlining)
+ATOMIC_FREE_RE = re.compile(r"^core::sync::atomic::atomic_(load|store|swap|compare_exchange|compare_exchange_weak|add|sub|and|nand|or|xor|max|min|umax|umin)::<(.*)>$")
+FREE_OP = {"load": "load", "store": "store", "swap": "swap", "compare_exchange": "compare_exchange", "compare_exchange_weak": "compare_exchange_weak",
+           "add": "fetch_add", "sub": "fetch_sub", "and": "fetch_and", "nand": "fetch_nand", "or": "fetch_or", "xor": "fetch_xor", "max": "fetch_max",
+           "min": "fetch_min", "umax": "fetch_max", "umin": "fetch_min"}
 STRENGTH = {"Relaxed": 0, "Release": 1, "Acquire": 1, "AcqRel": 2, "SeqCst": 3}
 
 
@@ -38,12 +43,18 @@ def sites(F, m):
         ci = F.inst[t["f"]]
         mm = ATOMIC_RE.match(ci.defp)
         if not mm:
-            continue
-        s = Site()
-        s.inst = m; s.bb = bb; s.op = mm.group(2); s.term = t; s.sp = t["sp"]
-        s.aty = ci.args[0] if (ci.args and "T" in mm.group(1)) else mm.group(1)
-        if mm.group(1) == "*mut T" and ci.args:
-            s.aty = "*mut " + ci.args[0]
+            fm = ATOMIC_FREE_RE.match(ci.name)
+            if not fm:
+                continue
+            s = Site()
+            s.inst = m; s.bb = bb; s.op = FREE_OP[fm.group(1)]; s.term = t; s.sp = t["sp"]
+            s.aty = fm.group(2)
+        else:
+            s = Site()
+            s.inst = m; s.bb = bb; s.op = mm.group(2); s.term = t; s.sp = t["sp"]
+            s.aty = ci.args[0] if (ci.args and "T" in mm.group(1)) else mm.group(1)
+            if mm.group(1) == "*mut T" and ci.args:
+                s.aty = "*mut " + ci.args[0]
         fl = flow(m)
         s.recv = [deep_strip(e) for e in fl.term_arg(bb, 0)]
         n = len(t["args"])
